@@ -359,11 +359,12 @@ class C13(core.Property):
     id = "C13"
     modules = ["Proofs.RegistryProofs", "Props.C13"]
     obligations = ["classify_by_members_only", "classify_agrees_jsonrpc", "route_is_classify",
+                   "id_presence_not_value", "route_independent_of_id_value",
                    "handler_gets_structure", "result_type_of_requested_method", "rtype_survives_other_ids",
                    "reply_structured_as_requested", "generic_paths_preserved", "generic_leaves_reachable", "generic_handler_gets_object",
                    "spec_leaves_sound", "helpers_ok_sound", "helpers_ok_current", "trip_reference_agrees",
                    "C13_reference_agrees", "C13_partial", "C13_refuted_type_name", "C13_refuted_nested_jsonrpc",
-                   "C13_refuted_array_params", "C13_refuted_kind_mismatch", "C13_refuted", "C13_nonvacuous"]
+                   "C13_refuted_array_params", "C13_refuted_kind_mismatch", "C13_refuted", "C13_nonvacuous", "C13_falsy_ids"]
     coq_targets = ["Props/C13.vo", "Extract/ExtractC13.vo"]
     rule = ("trip: every helper of the regenerated table x n seeded instances of its params (and result) type; "
             "non-trivial = the params instance has >= 1 optional/union/enum/sequence field populated (or the method "
@@ -520,24 +521,38 @@ class C13(core.Property):
             c = {"k": "recv", "sends": [list(s) for s in sends], "wire": wire}
             c.update(kw)
             out.append(c)
-        # the 8 rows x kinds of method x extra members
+        # the 8 rows x kinds of method x extra members x id values (falsy, string/int look-alikes, big):
+        # classification is by PRESENCE of the members, whatever the value of the id
+        IDS = [0, "", 1, "a", "0", 2 ** 53]
+        OTHER = "own-1"
         for i in (0, 1):
-            for m in (0, 1):
-                for e in (0, 1):
-                    for meth, params in (("x/unknown", {"a": {"b": 1}}), ("textDocument/hover", pos),
-                                         ("textDocument/didOpen", op), ("x/unknown", None)):
-                        for own in ((), (("x/sent", 5),), (("textDocument/hover", 5),)):
-                            for extra in ((), ("result",), ("params",)):
-                                w = {"jsonrpc": J}
-                                if i: w["id"] = 5 if (own and not m) else 7
-                                if m: w["method"] = meth
-                                if e: w["error"] = err
-                                if "params" in extra or (m and params is not None and "result" not in extra):
-                                    w["params"] = params
-                                if "result" in extra:
-                                    w["result"] = {"contents": "c"} if own and own[0][0] != "x/sent" else {"r": [1, {"s": 2}]}
-                                if not m and meth != "x/unknown": continue
-                                add(w, own)
+            for idv in (IDS if i else [None]):
+                for m in (0, 1):
+                    for e in (0, 1):
+                        for meth, params in (("x/unknown", {"a": {"b": 1}}), ("textDocument/hover", pos),
+                                             ("textDocument/didOpen", op), ("x/unknown", None)):
+                            if not m and meth != "x/unknown": continue
+                            for ownm in (None, "x/sent", "textDocument/hover"):
+                                # a response answers OUR request sent under the caller-chosen id idv;
+                                # a request never uses the id of an own outstanding request
+                                own = () if ownm is None else ((ownm, idv if (i and not m) else OTHER),)
+                                for extra in ((), ("result",), ("params",)):
+                                    w = {"jsonrpc": J}
+                                    if i: w["id"] = idv
+                                    if m: w["method"] = meth
+                                    if e: w["error"] = err
+                                    if "params" in extra or (m and params is not None and "result" not in extra):
+                                        w["params"] = params
+                                    if "result" in extra:
+                                        w["result"] = {"contents": "c"} if ownm == "textDocument/hover" else {"r": [1, {"s": 2}]}
+                                    add(w, own)
+        # look-alike ids: a reply whose id differs from the outstanding one only in JSON type (or is
+        # another falsy value) answers nothing
+        for sent, back in ((0, "0"), ("0", 0), (0, ""), ("", 0), (1, "1"), ("a", "A"), (2 ** 53, str(2 ** 53)), (0, 1)):
+            for ownm in ("x/sent", "textDocument/hover"):
+                add({"jsonrpc": J, "id": back, "result": {"contents": "c"}}, [(ownm, sent)])
+                add({"jsonrpc": J, "id": back, "error": err}, [(ownm, sent)])
+                add({"jsonrpc": J, "id": back, "result": None}, [(ownm, sent), ("y/sent", 77)])
         # responses to outstanding requests: generic and typed, several ids
         for _ in range(chk.n(800, 3000)):
             ids = rng.sample([1, 2, 3, "a", "b", "uuid-4", 10 ** 12], rng.randint(1, 3))
@@ -986,7 +1001,7 @@ class C13(core.Property):
                        2: {"jsonrpc", "id", "result"}, 3: {"jsonrpc", "id", "error"}}
             t = self._types()
             idok = (not hid) or (isinstance(w["id"], (int, str)) and not isinstance(w["id"], bool))
-            clash = hid and hm and any(i == w["id"] for _m, i in c["sends"])
+            clash = hid and hm and any(i == w["id"] and type(i) is type(w["id"]) for _m, i in c["sends"])
             outstanding = [m for m, i in c["sends"] if hid and i == w["id"] and type(i) is type(w["id"])]
             basic = (kind is not None and w.get("jsonrpc") == "2.0" and idok and not clash
                      and (kind in (0, 1) and isinstance(w["method"], str) or kind in (2, 3) and outstanding))
@@ -999,6 +1014,10 @@ class C13(core.Property):
                     e_ = t.METHOD_TO_TYPES.get(w["method"]) if kind in (0, 1) else None
                     if e_ is not None and (("id" in {f.name for f in __import__("attrs").fields(e_[0])}) != (kind == 0)):
                         guard, klass = False, klass or F_D
+            elif (kind in (2, 3) and w.get("jsonrpc") == "2.0" and idok and not outstanding and not nested
+                  and set(w) <= allowed[kind]):
+                # a (well-formed) reply to nothing we sent: no future may be touched, nothing dispatched
+                S = {"route": kind, "stray": True}
             elif basic:
                 entry = t.METHOD_TO_TYPES.get(w["method"]) if kind in (0, 1) else t.METHOD_TO_TYPES.get(outstanding[0])
                 S = {"route": kind, "id": canon(w.get("id"))}
@@ -1049,18 +1068,22 @@ class C13(core.Property):
         if not isinstance(impl, dict):
             return False
         r = S["route"]
+        jeq = lambda a, b: core.canon(a) == core.canon(b)      # same JSON type and value (0 is not "0" / false)
+        if S.get("stray"):
+            return impl["h"] == [] and impl["replies"] == [] and all(st == ["pending"] for _i, st in impl["futs"])
         if S.get("coarse"):
             if r == 0:
-                return len(impl["replies"]) == 1 and impl["replies"][0][0] == S["id"]
+                return len(impl["replies"]) == 1 and jeq(impl["replies"][0][0], S["id"])
             return impl["replies"] == [] and (r == 1 or impl["h"] == [])
         if self._route(impl) != r:
             return False
-        if r == 0 and impl["replies"] != [[S["id"], "ok"]]: return False
+        if r == 0 and not jeq(impl["replies"], [[S["id"], "ok"]]): return False
         if r == 1 and impl["replies"]: return False
         if r in (0, 1):
             payload = impl["h"][0][1]
         else:
-            st = [st for i, st in impl["futs"] if i == S["id"]]
+            st = [st for i, st in impl["futs"] if jeq(i, S["id"])]
+            if any(st2 != ["pending"] for i, st2 in impl["futs"] if not jeq(i, S["id"])): return False
             if len(st) != 1: return False
             if r == 3: return st[0] == ["exc", S["code"]]
             if st[0][0] != "res": return False
